@@ -31,6 +31,12 @@ def cases(draw, procs=False):
             'layer': draw(common.layer_pattern_strategy(names)) if draw(st.booleans()) else []}
     if procs:
         opts['j'] = draw(st.sampled_from([None, None, 2, 3]))
+        if spec.get('shaped') and draw(st.integers(0, 3)):
+            # the directed scenarios are about what the *coordinating* process does between layers: mostly run them
+            # sequentially and unfiltered, so that the scenario is not optioned away
+            opts['j'] = None
+            opts['layer'] = []
+            opts['stop'] = False
     return {'spec': spec, 'opts': opts}
 
 
